@@ -340,6 +340,9 @@ def run(ctx):
     if ad.unconverged:
         ctx.skip('solves that did not converge', ad.unconverged)
     ctx.sample({'edge': res.records['EDGE'][len(res.records['EDGE']) // 2]})
+    # (3) the composite life cycle: histories crossing edits, creation, the three ways of solving, calculate.* and user transforms
+    from harness import lifecycle
+    lifecycle.run_stage(ctx, thorough, only=None)
     # direction B: System events of the repository's tests and of sweep-shaped drivers
     ev1, i1 = tracecheck.record_pytest(ctx, ['System_test.py', 'PRISM_test.py'], 'suite_system')
     ev2, i2 = tracecheck.record_driver(ctx, 'prism_driver', [ctx.seed, 'sweep', 4 if thorough else 1], 'driver_system')
